@@ -278,7 +278,7 @@ class PackageMachine:
             if st.own_path:
                 ops.append(("save", "inplace"))
         elif alphabet == "c04":
-            ops += [("add_file", "path"), ("add_file", "io"), ("add_file", "io2"), ("del_part_bin",), ("del_part_added",), ("image_frame",), ("merge_styles",), ("clone",), ("edit_body",), ("touch", "manifest")]
+            ops += [("add_file", "path"), ("add_file", "io"), ("add_file", "io2"), ("del_part_bin",), ("del_part_added",), ("image_frame",), ("merge_styles",), ("merge_styles", "example.odp"), ("merge_styles", "background.odp"), ("clone",), ("edit_body",), ("touch", "manifest")]
             ops += [("save", "zip"), ("save", "bytesio")]
         elif alphabet == "c04m":
             ops += [("add_file", "path"), ("add_file", "io"), ("del_part_added",), ("del_part_bin",), ("save", "zip")]
@@ -392,7 +392,8 @@ class PackageMachine:
                 self._model_manifest_add(m, uri, "image/png")
                 m.parts["content.xml"] = ("dirty", None)
             elif name == "merge_styles":
-                other = Document(str(SAMPLES / "lpod_styles.odt"))
+                # (the presentations carry pictures on their master pages / as fill images: merged along)
+                other = Document(str(SAMPLES / (op[1] if len(op) > 1 else "lpod_styles.odt")))
                 doc.merge_styles_from(other)
                 m.parts["content.xml"] = ("dirty", None)
                 m.parts["styles.xml"] = ("dirty", None)
